@@ -277,6 +277,13 @@ type Cluster struct {
 	// CutSilent: after the bytes of a "cut-exact" fault the broker neither
 	// closes nor sends anything more on the connection
 	CutSilent bool
+	// ThrottleMs: the throttle_time_ms that responses carry (where the api and
+	// version have the field). Purely informational: the broker has already
+	// applied the quota by delaying the response; the request was served.
+	// ThrottleEvery n: only every n-th response carries it (0 = all).
+	ThrottleMs    int32
+	ThrottleEvery int
+	throttleSeq   int
 	// OutOfOrder: a slow response does not hold up the requests queued behind
 	// it on the connection; their responses may overtake it (Kafka brokers
 	// answer in order; clients match responses by correlation id)
@@ -514,6 +521,15 @@ func (b *Broker) respond(c *Conn, st *connState, r *Req, body rc.Msg) {
 		st.busy = false
 		b.pump(c, st)
 		return
+	}
+	if cl.ThrottleMs > 0 {
+		if _, ok := body["throttle_time_ms"]; ok {
+			cl.throttleSeq++
+			if cl.ThrottleEvery <= 1 || cl.throttleSeq%cl.ThrottleEvery == 0 {
+				body["throttle_time_ms"] = cl.ThrottleMs
+				cl.S.Count("throttled-response")
+			}
+		}
 	}
 	if cl.Mutate != nil {
 		body = cl.Mutate(r, body)
